@@ -13,48 +13,83 @@ Definition fb_str (w : list byte) (i : N) : N := fb_rest (skipn (N.to_nat i) w) 
 Definition fb_of (utf8 : bool) (w : list byte) : N -> N := if utf8 then fb_str w else (fun i => i).
 
 (* Callback oracle used by the harness definitions.  Behaviour code per leaf:
-   0 = emit; 1 = skip; 2 = decided by a checksum of the matched bytes (see harness `decide`). *)
+   0 = emit; 1 = skip; >= 10 = a callback of the harness corpus (corpus/engine/callbacks_plain.rs)
+   that decides by the checksum k = (sum of the matched bytes + their number) mod 4 through the
+   table of its return type; 25 additionally bumps. *)
 Fixpoint sum_bytes (l : list byte) : N := match l with [] => 0 | b :: r => b + sum_bytes r end.
 Definition slice (w : list byte) (s e : N) : list byte :=
   firstn (N.to_nat (e - s)) (skipn (N.to_nat s) w).
-Definition act_of (codes : list N) (w : list byte) (l : leaf) (s e : N) : action * N :=
+Definition cksum (w : list byte) (s e : N) : N := (sum_bytes (slice w s e) + (e - s)) mod 4.
+
+(* documented outcome per return type (book/src/callbacks.md), indexed by the checksum *)
+Definition table (code k : N) : action :=
+  match code with
+  | 10 | 11 => match k with 0 | 2 => AEmit | _ => ADefaultErr end       (* bool, Option<T> *)
+  | 12 | 20 => match k with 0 | 2 => AEmit | _ => AErr end              (* Result<T,E>, Result<L,E> *)
+  | 13 | 21 => match k with 0 | 2 => AEmit | _ => ASkip end             (* Filter<T>, Filter<L> *)
+  | 14 | 22 => match k with 0 | 3 => AEmit | 1 => ASkip | _ => AErr end (* FilterResult *)
+  | 15 | 23 => ASkip                                                    (* Skip, () on a skip *)
+  | 16 | 24 => match k with 0 | 2 => ASkip | _ => AErr end              (* Result<Skip,E>, Result<(),E> on a skip *)
+  | _ => AEmit                                                          (* (), T, L, bumping value *)
+  end.
+
+Definition is_cont_b (b : byte) : bool := (128 <=? b) && (b <? 192).
+Definition boundary_at (utf8 : bool) (w : list byte) (i : N) : bool :=
+  if N.of_nat (length w) <? i then false
+  else if utf8 then match nth_error w (N.to_nat i) with Some b => negb (is_cont_b b) | None => true end
+  else true.
+
+Definition act_of (utf8 : bool) (codes : list N) (w : list byte) (l : leaf) (s e : N) : action * N :=
   match nth (N.to_nat l) codes 0 with
   | 0 => (AEmit, 0)
   | 1 => (ASkip, 0)
-  | _ => let k := (sum_bytes (slice w s e) + (e - s)) mod 4 in
-         (match k with 0 => AEmit | 1 => ASkip | 2 => AErr | _ => ADefaultErr end, 0)
+  | 25 => let want := sum_bytes (slice w s e) mod 3 in
+          (AEmit, if boundary_at utf8 w (e + want) then want else 0)
+  | code => (table code (cksum w s e), 0)
   end.
 
-Definition enc_item (it : item) : list N :=
-  match it with
-  | Item ok l s e => [if ok then 1 else 0; match l with Some l => l + 1 | None => 0 end; s; e]
+(* encoding of regions: six numbers each.
+   items [ok; leaf+1; s; e; custom-error?; k], skipped regions [5; leaf+1; s; e; 0; k] *)
+Definition leaf_k (codes : list N) (w : list byte) (l : option leaf) (s e : N) : N :=
+  match l with Some _ => cksum w s e | None => 0 end.
+Definition enc_region (utf8 : bool) (codes : list N) (w : list byte) (r : region) : list N :=
+  match r with
+  | RItem (Item ok l s e) =>
+      [if ok then 1 else 0; match l with Some l => l + 1 | None => 0 end; s; e;
+       match l with
+       | Some l' => if ok then 0 else
+                    (* the match end is not known here; the harness callbacks never bump on errors *)
+                    match fst (act_of utf8 codes w l' s e) with AErr => 1 | _ => 0 end
+       | None => 0 end;
+       leaf_k codes w l s e]
+  | RSkip l s e => [5; l + 1; s; e; 0; cksum w s e]
   end.
-Definition enc_result (r : list region * outcome) : list N :=
-  flat_map enc_item (items_of (fst r)) ++
+Definition enc_result (utf8 : bool) (codes : list N) (w : list byte) (r : list region * outcome) : list N :=
+  flat_map (enc_region utf8 codes w) (fst r) ++
   match snd r with Finished s e => [2; s; e] | Broken => [3] | Yield _ _ => [4] end.
 
 Definition run_ref (g : graph) (utf8 : bool) (codes : list N) (isprefix : bool) (w : list byte) : list N :=
-  enc_result (lex_all (attempt_ref g) (act_of codes w) (fb_of utf8 w) w isprefix).
+  enc_result utf8 codes w (lex_all (attempt_ref g) (act_of utf8 codes w) (fb_of utf8 w) w isprefix).
 
 Definition run_spec (d : dfa) (R : rankmap) (utf8 : bool) (codes : list N) (w : list byte) : list N :=
-  enc_result (lex_all (attempt_spec d (lv_of R)) (act_of codes w) (fb_of utf8 w) w false).
+  enc_result utf8 codes w (lex_all (attempt_spec d (lv_of R)) (act_of utf8 codes w) (fb_of utf8 w) w false).
 
 (* one call of next() from a given token_end (used to judge single items) *)
-Definition enc_outcome (o : outcome) : list N :=
+Definition enc_outcome (utf8 : bool) (codes : list N) (w : list byte) (o : outcome) : list N :=
   match o with
-  | Yield it _ => enc_item it
+  | Yield it _ => enc_region utf8 codes w (RItem it)
   | Finished s e => [2; s; e]
   | Broken => [3]
   end.
 Definition run_next_ref (g : graph) (utf8 : bool) (codes : list N) (isprefix : bool) (w : list byte) (start : N) : list N :=
-  enc_outcome (snd (next_from (attempt_ref g) (act_of codes w) (fb_of utf8 w) w isprefix (S (length w)) start)).
+  enc_outcome utf8 codes w (snd (next_from (attempt_ref g) (act_of utf8 codes w) (fb_of utf8 w) w isprefix (S (length w)) start)).
 Definition run_next_spec (d : dfa) (R : rankmap) (utf8 : bool) (codes : list N) (w : list byte) (start : N) : list N :=
-  enc_outcome (snd (next_from (attempt_spec d (lv_of R)) (act_of codes w) (fb_of utf8 w) w false (S (length w)) start)).
+  enc_outcome utf8 codes w (snd (next_from (attempt_spec d (lv_of R)) (act_of utf8 codes w) (fb_of utf8 w) w false (S (length w)) start)).
 
 (* the optimised executor with its read log: results as run_ref, then per attempt the reads *)
 Fixpoint enc_log (l : rlog) : list N := match l with [] => [] | (o, sz) :: r => o :: sz :: enc_log r end.
 Definition run_opt (U : nat) (g : graph) (utf8 : bool) (codes : list N) (isprefix : bool) (w : list byte) : list N :=
-  enc_result (lex_all (fun p s r => fst (attempt_opt U g p s r)) (act_of codes w) (fb_of utf8 w) w isprefix).
+  enc_result utf8 codes w (lex_all (fun p s r => fst (attempt_opt U g p s r)) (act_of utf8 codes w) (fb_of utf8 w) w isprefix).
 (* read log of the single attempt starting at `start` *)
 Definition run_opt_trace (U : nat) (g : graph) (isprefix : bool) (w : list byte) (start : N) : list N :=
   enc_log (snd (attempt_opt U g isprefix start (skipn (N.to_nat start) w))).
@@ -64,7 +99,7 @@ Definition run_opt_trace (U : nat) (g : graph) (isprefix : bool) (w : list byte)
 Definition region_start (r : region) : N :=
   match r with RItem (Item _ _ s _) => s | RSkip _ s _ => s end.
 Definition region_starts (g : graph) (utf8 : bool) (codes : list N) (isprefix : bool) (w : list byte) : list N :=
-  match lex_all (attempt_ref g) (act_of codes w) (fb_of utf8 w) w isprefix with
+  match lex_all (attempt_ref g) (act_of utf8 codes w) (fb_of utf8 w) w isprefix with
   | (rs, Finished s _) => map region_start rs ++ [s]
   | (rs, _) => map region_start rs
   end.
